@@ -35,9 +35,14 @@ import (
 
 func TestMain(m *testing.M) { ev.Main(m, "C18") }
 
-// Known-finding keys. The check is strict unless a key is listed as open for C18 in
-// $VERIF_KNOWN and its witness still reproduces; then exactly that input class is excluded
-// by construction (see genPlan) and counted.
+// Finding keys. All three defects below were first seen with this check and have since been
+// repaired in /repo ("fix:" commits 28b5692, d278f6e, 281756d; the reverse patches are
+// /verif/seeded/orig-C18-msgset-sizing, orig-C18-flex-tags, orig-C18-first-request-topicid).
+// None is listed in KNOWN_FINDINGS.json, so everything is asserted strictly and the recorded
+// witnesses (TestKnownFindingWitnesses) must pass. The plumbing stays: should a key ever be
+// listed as open for C18 in $VERIF_KNOWN and its witness reproduce, exactly that input class
+// is treated as described at its use (excluded by construction or held to the stated weaker
+// bound) and counted with ev.Excluded.
 const (
 	// produce v0-v2 (message sets): tryBuffer sizes the record being added with its
 	// record-batch-v2 length, so a message set can exceed ProducerBatchMaxBytes.
@@ -119,20 +124,20 @@ type faultPlan struct {
 }
 
 type plan struct {
-	PV      int16         `json:"produce_version"`
-	MetaMax int16         `json:"metadata_max"`
-	Mode    int           `json:"mode"`
-	Acks    int16         `json:"acks"`
-	Codecs  []int8        `json:"codecs"`
-	ClientID *string      `json:"client_id"`
-	TxnID   string        `json:"txn_id,omitempty"`
-	TxnV    int16         `json:"transaction_version_feature"`
-	Topics  []topicPlan   `json:"topics"`
-	W       int32         `json:"broker_max_write_bytes"`
-	B       int32         `json:"producer_batch_max_bytes"`
-	Linger  time.Duration `json:"linger"`
-	Recs    []recPlan     `json:"recs"`
-	Faults  []faultPlan   `json:"faults,omitempty"`
+	PV       int16         `json:"produce_version"`
+	MetaMax  int16         `json:"metadata_max"`
+	Mode     int           `json:"mode"`
+	Acks     int16         `json:"acks"`
+	Codecs   []int8        `json:"codecs"`
+	ClientID *string       `json:"client_id"`
+	TxnID    string        `json:"txn_id,omitempty"`
+	TxnV     int16         `json:"transaction_version_feature"`
+	Topics   []topicPlan   `json:"topics"`
+	W        int32         `json:"broker_max_write_bytes"`
+	B        int32         `json:"producer_batch_max_bytes"`
+	Linger   time.Duration `json:"linger"`
+	Recs     []recPlan     `json:"recs"`
+	Faults   []faultPlan   `json:"faults,omitempty"`
 }
 
 func genName(t *rapid.T, label string, maxLen int) string {
